@@ -14,7 +14,7 @@ Local Arguments Nat.ltb : simpl never.
 (* ================================================================== *)
 (* Safety theorems                                                     *)
 
-Lemma returned_stage fx r cap s : reach fx r cap s -> close_returned s = true -> stage s = 12.
+Lemma returned_stage fx r cap s : reach fx r cap s -> close_returned s = true -> stage s = 13.
 Proof.
   intros R H. destruct (inv1_reach _ _ _ _ R) as (_ & _ & I3). unfold close_returned in H.
   destruct (once s); try discriminate. exact I3.
@@ -39,9 +39,9 @@ Proof.
   - destruct (threads s t) as [th|] eqn:Hth; [|reflexivity].
     destruct (stage_active _ _ _ _ _ _ R Hth) as [A1 A2].
     specialize (A1 ltac:(lia)). specialize (A2 ltac:(lia)).
-    unfold exp_active, async_active in *. destruct (t_pc th) as [| | | | | | | | | | | | | | | | | |[|n]| | | | | | | |[|n]| | | | | |x]; try reflexivity; try discriminate.
+    unfold exp_active, async_active in *. destruct (t_pc th) as [| | | | | | | | | | | | | | | | | | |[|n]| | | | | | | |[|n]| | | | | |x]; try reflexivity; try discriminate.
   - destruct lb; try reflexivity.
-    destruct (inv3_reach _ _ _ _ R) as (_ & _ & _ & _ & _ & _ & _ & _ & _ & K10).
+    destruct (inv3_reach _ _ _ _ R) as (_ & _ & _ & _ & _ & _ & _ & _ & _ & K10 & K11).
     rewrite (K10 eq_refl) by lia. reflexivity.
 Qed.
 
@@ -80,7 +80,7 @@ Theorem listeners_closed r cap s :
   forall l x, lst (co s) l = Some x -> l_reg x = true -> l_in_closed x = true.
 Proof.
   intros R Hc. pose proof (returned_stage _ _ _ _ R Hc) as Hs.
-  destruct (inv3_reach _ _ _ _ R) as (_ & _ & _ & _ & _ & _ & _ & _ & _ & K10).
+  destruct (inv3_reach _ _ _ _ R) as (_ & _ & _ & _ & _ & _ & _ & _ & _ & K10 & K11).
   assert (Hd : d_pc (co s) = DDone) by (apply K10; [reflexivity|lia]).
   split; [exact Hd|]. intros l x. apply core_done_closed_all; [eapply reach_core; eassumption|exact Hd].
 Qed.
@@ -107,14 +107,16 @@ Theorem threads_end r cap s :
   (forall t th, threads s t = Some th -> exp_active th = false /\ async_active th = false) /\
   (has_recv s = true -> w_pc s = WEnd) /\
   d_pc (co s) = DDone /\
+  ic_pc s = ICEnd /\
   closing (co s) = true.
 Proof.
   intros R Hc. pose proof (returned_stage _ _ _ _ R Hc) as Hs.
   destruct (explicit_syncs_finish_async_cancelled _ _ _ _ R) as (E1 & E2 & E3).
-  split; [|split; [|split]].
+  split; [|split; [|split; [|split]]].
   - intros t th Hth. split; [eapply E1|eapply E3]; try eassumption; lia.
   - intro Hr. apply E2; [lia|exact Hr].
   - apply (listeners_closed _ _ _ R Hc).
+  - destruct (inv3_reach _ _ _ _ R) as (_ & _ & _ & _ & _ & _ & _ & _ & _ & _ & K11). apply K11; [reflexivity|lia].
   - destruct (inv3_reach _ _ _ _ R) as (_ & _ & _ & _ & _ & _ & K7 & _). apply K7. lia.
 Qed.
 
@@ -185,7 +187,7 @@ Proof.
   assert (Hec : exp_closed s = true) by (apply J2; lia).
   unfold close_returned in Hc. destruct (once s) eqn:Ho; try discriminate Hc.
   unfold exp_active, async_active in *.
-  destruct (t_pc th) as [| | | | | | | | | | | | | | | | | |left| | | | | | | |left| | | | | |res] eqn:Hpc;
+  destruct (t_pc th) as [| | | | | | | | | | | | | | | | | | |left| | | | | | | |left| | | | | |res] eqn:Hpc;
     try discriminate Hb; try discriminate A1; try discriminate A2.
   - left. en_go 0 Hth Hpc. rewrite Ho. eexists; reflexivity.
   - (* ELock *)
@@ -381,7 +383,7 @@ Proof.
   destruct (inv1_reach _ _ _ _ R) as (I1 & I2 & I3). rewrite Ho in I3. destruct I3 as (Hst & thr & Hr & Hb).
   destruct (runner_once _ _ _ (I2 _ _ Hr) Hb) as [_ Hs].
   destruct (inv2_reach _ _ _ _ R) as (J1 & J2 & J3).
-  destruct (inv3_reach _ _ _ _ R) as (K1 & K2 & K3 & K4 & K5 & K6 & K7 & K8 & K9 & K10).
+  destruct (inv3_reach _ _ _ _ R) as (K1 & K2 & K3 & K4 & K5 & K6 & K7 & K8 & K9 & K10 & K11).
   pose proof (cinv_reach _ (reach_core _ _ _ _ R)) as CI.
   destruct (t_pc thr) eqn:Hpc; try discriminate Hb; cbn [stage_of] in Hs.
   - (* CClosing *) step_ok r0 0 Hr Hpc. cbn [cstep]. destruct (closing (co s)); eexists; reflexivity.
@@ -404,7 +406,7 @@ Proof.
     destruct (none_active s exp_active) eqn:Hna.
     + step_ok r0 0 Hr Hpc. rewrite Hna. destruct (has_recv s); eexists; reflexivity.
     + destruct (none_active_false _ _ Hna) as (t & th & Hth & Ha). unfold exp_active in Ha.
-      destruct (t_pc th) as [| | | | | | | | | | | | | | | | | |left| | | | | | | |left| | | | | |x] eqn:Hp; try discriminate Ha.
+      destruct (t_pc th) as [| | | | | | | | | | | | | | | | | | |left| | | | | | | |left| | | | | |x] eqn:Hp; try discriminate Ha.
       * step_ok t 0 Hth Hp. eexists; reflexivity.
       * destruct left; step_ok t 0 Hth Hp; [destruct (k_upd (t_kind th))|]; eexists; reflexivity.
       * step_ok t 0 Hth Hp. eexists; reflexivity.
@@ -435,7 +437,7 @@ Proof.
           by (apply (inv5_reach _ _ _ _ R _ _ Hth); unfold needs_recv; rewrite Hk; reflexivity).
         apply K5. right. apply K4. apply K3; [lia|exact Hhr]. }
       unfold async_active in Ha.
-      destruct (t_pc th) as [| | | | | | | | | | | | | | | | | |left| | | | | | | |left| | | | | |x] eqn:Hp; try discriminate Ha.
+      destruct (t_pc th) as [| | | | | | | | | | | | | | | | | | |left| | | | | | | |left| | | | | |x] eqn:Hp; try discriminate Ha.
       * (* ASem *)
         destruct (sem_cap s) eqn:Hcap.
         -- step_ok t 0 Hth Hp. rewrite Hcap. eexists; reflexivity.
@@ -465,6 +467,12 @@ Proof.
     all: assert (Hic : in_closed (co s) = true) by (apply K8; lia).
     all: destruct (close_step _ CI Hic) as (c' & Hc' & _); [unfold close_rank, dist_rank; rewrite ?Hd; cbn; lia|].
     all: exists (Core LDist); split; [reflexivity|]; cbn [stepf C15_Shutdown.core_label_ok]; rewrite Hc'; eexists; reflexivity.
+  - (* CWaitIC: s.closing is closed, so the cleaner's exit is enabled *)
+    assert (Hcl : closing (co s) = true) by (apply K7; lia).
+    destruct (ic_pc s) eqn:Hicp.
+    + exists (Cleaner 1). split; [reflexivity|]. cbn [stepf]. unfold cleaner_step. rewrite Hicp, Hcl. eexists; reflexivity.
+    + exists (Cleaner 1). split; [reflexivity|]. cbn [stepf]. unfold cleaner_step. rewrite Hicp. eexists; reflexivity.
+    + step_ok r0 0 Hr Hpc. rewrite Hicp. eexists; reflexivity.
   - step_ok r0 0 Hr Hpc. eexists; reflexivity.
   - step_ok r0 0 Hr Hpc. eexists; reflexivity.
 Qed.
@@ -475,8 +483,8 @@ Qed.
 Definition rank (th : thread) : nat :=
   let f := k_fuel (t_kind th) in
   match t_pc th with
-  | COnce => 14 | CClosing => 13 | CLock => 12 | CSet => 11 | CUnlock => 10 | CWaitExp => 9 | CRecvClose => 8
-  | CWaitWatch => 7 | CWaitAsync => 6 | CCloseIn => 5 | CWaitDist => 4 | CPeerstore => 3 | COnceDone => 2
+  | COnce => 15 | CClosing => 14 | CLock => 13 | CSet => 12 | CUnlock => 11 | CWaitExp => 10 | CRecvClose => 9
+  | CWaitWatch => 8 | CWaitAsync => 7 | CCloseIn => 6 | CWaitDist => 5 | CWaitIC => 4 | CPeerstore => 3 | COnceDone => 2
   | ELock => f + 9 | ECheck => f + 8 | EAdd => f + 7 | EUnlock => f + 6 | ERefuse => 1
   | EBody n => n + 4 | ESetLatest => 3 | ESend => 2 | EDone => 1
   | NCheck => f + 12 | NPut => f + 11
@@ -607,3 +615,231 @@ Proof.
   intros R Hth Hpc Ho. exists 0. cbn [stepf]. rewrite Hth. unfold step_thread. rewrite Hpc.
   destruct Ho as [-> | ->]; eexists; reflexivity.
 Qed.
+
+(* ================================================================== *)
+(* The per-publisher layer (asyncMutex, semaphore, syncMutex: C08/C14)  *)
+(* It is left out of the model above.  Here it is an arbitrary restriction `avail` of the
+   schedules: a sync goroutine at one of its lock points may be unavailable (blocked on
+   hnd.asyncMutex, on the semaphore, on h.syncMutex).  What the shutdown needs from that
+   layer is stated as two hypotheses; the liveness theorems are re-proved under them, so
+   they do not silently assume that the per-publisher layer cannot block.  (The safety
+   theorems hold for every sub-system of `reach`, hence for the restricted one: lreach_reach.) *)
+
+Section PerPublisherLayer.
+  Variable fx rc : bool.
+  Variable cap : nat.
+  Variable avail : st -> label -> bool.
+
+  (* where a sync goroutine takes a per-publisher lock or the semaphore: the goroutine started
+     by watch at its start (asyncMutex, then the semaphore), and any sync before its first
+     block (syncMutex) *)
+  Definition lock_point (th : thread) : bool :=
+    match t_pc th with
+    | ASem => true
+    | EBody _ | ABody _ => Nat.eqb (t_blocks th) 0
+    | _ => false
+    end.
+
+  Definition lstep (s : st) (l : label) : option st := if avail s l then stepf fx s l else None.
+  Definition lreach (s : st) : Prop := reachable lstep (init rc cap) s.
+
+  Definition is_some_st (o : option st) : bool := match o with Some _ => true | None => false end.
+  Definition can_step (s : st) (t : nat) : bool :=
+    existsb (fun c => avail s (Step t c) && is_some_st (stepf fx s (Step t c))) [0; 1].
+
+  (* a sync that is past its lock points and not finished: it holds what it needs *)
+  Definition sync_running (th : thread) : bool :=
+    (exp_active th || async_active th || match t_pc th with ASemRel => true | _ => false end) &&
+    negb (lock_point th).
+
+  (* H1: the layer only ever holds back a sync goroutine at a lock point *)
+  Hypothesis avail_only_lock_points :
+    forall s l, avail s l = false ->
+      exists t c th, l = Step t c /\ threads s t = Some th /\ lock_point th = true.
+
+  (* H2: no deadlock inside the layer: if a goroutine is held back at a lock point (its lock or
+     the semaphore is taken), then some sync goroutine is past its lock points, or is at one
+     and can go on.  (C08: locks are taken in the order asyncMutex < semaphore < syncMutex and
+     released in finitely many own steps; Properties_C08.no_deadlock.) *)
+  Hypothesis layer_progress :
+    forall s t th, lreach s -> threads s t = Some th -> lock_point th = true -> can_step s t = false ->
+      exists t' th', threads s t' = Some th' /\
+        (sync_running th' = true \/ (lock_point th' = true /\ can_step s t' = true)).
+
+  Lemma lreach_reach s : lreach s -> reach fx rc cap s.
+  Proof.
+    intros [ls H]. exists ls. revert H. generalize (init rc cap). induction ls as [|l r IH]; intros s0 H; cbn in *; [exact H|].
+    unfold lstep in H at 1. destruct (avail s0 l); [|discriminate].
+    destruct (stepf fx s0 l) as [s1|]; [apply IH; exact H|discriminate].
+  Qed.
+
+  Lemma avail_thread s t c th : threads s t = Some th -> lock_point th = false -> avail s (Step t c) = true.
+  Proof.
+    intros Hth Hl. destruct (avail s (Step t c)) eqn:E; [reflexivity|].
+    destruct (avail_only_lock_points _ _ E) as (t' & c' & th' & Heq & Hth' & Hl').
+    inversion Heq; subst. rewrite Hth in Hth'. inversion Hth'; subst. congruence.
+  Qed.
+  Lemma avail_other s l : (forall t c, l <> Step t c) -> avail s l = true.
+  Proof.
+    intro Hn. destruct (avail s l) eqn:E; [reflexivity|].
+    destruct (avail_only_lock_points _ _ E) as (t' & c' & th' & Heq & _). exfalso. eapply Hn. exact Heq.
+  Qed.
+
+  Definition lprogress (s : st) : Prop := exists l, int_label l = true /\ exists s', lstep s l = Some s'.
+
+  Ltac l_thread t c Hth Hpc :=
+    exists (Step t c); split; [reflexivity|]; unfold lstep;
+    rewrite (avail_thread _ t c _ Hth) by (unfold lock_point; rewrite Hpc; reflexivity);
+    cbn [stepf]; rewrite Hth; unfold step_thread; rewrite Hpc.
+  Ltac l_dist Hc :=
+    exists (Core LDist); split; [reflexivity|]; unfold lstep;
+    rewrite avail_other by (intros; discriminate);
+    cbn [stepf C15_Shutdown.core_label_ok]; rewrite Hc; eexists; reflexivity.
+
+  (* a sync past its lock points always has an available step (its own, or the distributor's
+     when inEvents is full) *)
+  Lemma running_progress s t th :
+    lreach s -> threads s t = Some th -> sync_running th = true -> lprogress s.
+  Proof.
+    intros LR Hth Hr. pose proof (lreach_reach _ LR) as R.
+    unfold sync_running in Hr. apply andb_prop in Hr. destruct Hr as [Ha Hl]. apply negb_true_iff in Hl.
+    unfold exp_active, async_active in Ha. unfold lock_point in Hl.
+    destruct (t_pc th) as [| | | | | | | | | | | | | | | | | | |left| | | | | | | |left| | | | | |x] eqn:Hp; try discriminate Ha; try discriminate Hl.
+    - l_thread t 0 Hth Hp. eexists; reflexivity.
+    - exists (Step t 0). split; [reflexivity|]. unfold lstep.
+      rewrite (avail_thread _ t 0 _ Hth) by (unfold lock_point; rewrite Hp; exact Hl).
+      cbn [stepf]. rewrite Hth. unfold step_thread. rewrite Hp.
+      destruct left; [destruct (k_upd (t_kind th))|]; eexists; reflexivity.
+    - l_thread t 0 Hth Hp. eexists; reflexivity.
+    - destruct (send_or_dist _ _ _ _ (dummy_event t false) R) as [(c & Hc)|(c & Hc)].
+      + l_thread t 0 Hth Hp. rewrite Hc. eexists; reflexivity.
+      + l_dist Hc.
+    - l_thread t 0 Hth Hp. eexists; reflexivity.
+    - l_thread t 0 Hth Hp. destruct (ctx_cancelled s); eexists; reflexivity.
+    - exists (Step t 0). split; [reflexivity|]. unfold lstep.
+      rewrite (avail_thread _ t 0 _ Hth) by (unfold lock_point; rewrite Hp; exact Hl).
+      cbn [stepf]. rewrite Hth. unfold step_thread. rewrite Hp.
+      destruct left; eexists; reflexivity.
+    - l_thread t 0 Hth Hp. eexists; reflexivity.
+    - destruct (send_or_dist _ _ _ _ (dummy_event t false) R) as [(c & Hc)|(c & Hc)].
+      + l_thread t 0 Hth Hp. rewrite Hc. eexists; reflexivity.
+      + l_dist Hc.
+    - destruct (send_or_dist _ _ _ _ (dummy_event t true) R) as [(c & Hc)|(c & Hc)].
+      + l_thread t 0 Hth Hp. rewrite Hc. eexists; reflexivity.
+      + l_dist Hc.
+    - l_thread t 0 Hth Hp. eexists; reflexivity.
+    - l_thread t 0 Hth Hp. destruct (t_sem th); eexists; reflexivity.
+  Qed.
+
+  Lemma can_step_progress s t : can_step s t = true -> lprogress s.
+  Proof.
+    unfold can_step. intro H. apply existsb_exists in H. destruct H as (c & _ & H).
+    apply andb_prop in H. destruct H as [Ha Hs].
+    exists (Step t c). split; [reflexivity|]. unfold lstep. rewrite Ha.
+    destruct (stepf fx s (Step t c)); [eexists; reflexivity|discriminate].
+  Qed.
+
+  (* any unfinished sync goroutine leads to an available internal step *)
+  Lemma active_progress s t th :
+    lreach s -> threads s t = Some th -> (exp_active th = true \/ async_active th = true) -> lprogress s.
+  Proof.
+    intros LR Hth Ha.
+    destruct (lock_point th) eqn:Hl.
+    - destruct (can_step s t) eqn:Hc; [eapply can_step_progress; exact Hc|].
+      destruct (layer_progress _ _ _ LR Hth Hl Hc) as (t' & th' & Hth' & [Hr|[_ Hc']]).
+      + eapply running_progress; eassumption.
+      + eapply can_step_progress; exact Hc'.
+    - eapply running_progress; [exact LR|exact Hth|].
+      unfold sync_running. rewrite Hl. destruct Ha as [-> | ->]; cbn; rewrite ?orb_true_r; reflexivity.
+  Qed.
+
+  (* Close never gets stuck, given a live per-publisher layer *)
+  Theorem close_never_stuck_layer s r0 : lreach s -> once s = ORunning r0 -> lprogress s.
+  Proof.
+    intros LR Ho. pose proof (lreach_reach _ LR) as R.
+    destruct (inv1_reach _ _ _ _ R) as (I1 & I2 & I3). rewrite Ho in I3. destruct I3 as (Hst & thr & Hr & Hb).
+    destruct (runner_once _ _ _ (I2 _ _ Hr) Hb) as [_ Hs].
+    destruct (inv2_reach _ _ _ _ R) as (J1 & J2 & J3).
+    destruct (inv3_reach _ _ _ _ R) as (K1 & K2 & K3 & K4 & K5 & K6 & K7 & K8 & K9 & K10 & K11).
+    pose proof (cinv_reach _ (reach_core _ _ _ _ R)) as CI.
+    destruct (t_pc thr) eqn:Hpc; try discriminate Hb; cbn [stage_of] in Hs.
+    - l_thread r0 0 Hr Hpc. cbn [cstep]. destruct (closing (co s)); eexists; reflexivity.
+    - destruct (exp_mu s) as [h|] eqn:Hmu.
+      + destruct (J3 _ eq_refl) as (thh & Hh & Hcs).
+        assert (Hne : h <> r0).
+        { intros ->. rewrite Hr in Hh. inversion Hh; subst. rewrite Hpc in Hcs. discriminate. }
+        assert (Hb' : closer_body (t_pc thr) = true) by (rewrite Hpc; reflexivity).
+        pose proof (not_runner _ _ _ _ _ (I2 _ _ Hr) Hb' Hne (I2 _ _ Hh)) as Hnb.
+        destruct (t_pc thh) eqn:Hph; try discriminate Hcs; try discriminate Hnb.
+        * l_thread h 0 Hh Hph. destruct (exp_closed s); eexists; reflexivity.
+        * l_thread h 0 Hh Hph. eexists; reflexivity.
+        * l_thread h 0 Hh Hph. eexists; reflexivity.
+        * l_thread h 0 Hh Hph. eexists; reflexivity.
+      + l_thread r0 0 Hr Hpc. rewrite Hmu. eexists; reflexivity.
+    - l_thread r0 0 Hr Hpc. eexists; reflexivity.
+    - l_thread r0 0 Hr Hpc. eexists; reflexivity.
+    - destruct (none_active s exp_active) eqn:Hna.
+      + l_thread r0 0 Hr Hpc. rewrite Hna. destruct (has_recv s); eexists; reflexivity.
+      + destruct (none_active_false _ _ Hna) as (t & th & Hth & Ha).
+        eapply active_progress; [exact LR|exact Hth|left; exact Ha].
+    - l_thread r0 0 Hr Hpc. eexists; reflexivity.
+    - destruct (watch_done s) eqn:Hwd.
+      + l_thread r0 0 Hr Hpc. rewrite Hwd. eexists; reflexivity.
+      + assert (Hhr : has_recv s = true).
+        { apply (inv5_reach _ _ _ _ R _ _ Hr). unfold needs_recv. rewrite Hpc. apply orb_true_r. }
+        assert (Hrc : recv_closed s = true) by (apply K2; [lia|exact Hhr]).
+        assert (W : forall c, avail s (Watcher c) = true) by (intro; apply avail_other; intros; discriminate).
+        destruct (w_pc s) eqn:Hw.
+        * exists (Watcher 1). split; [reflexivity|]. unfold lstep. rewrite W. cbn [stepf]. unfold watcher_step. rewrite Hhr, Hw, Hrc. eexists; reflexivity.
+        * exists (Watcher 0). split; [reflexivity|]. unfold lstep. rewrite W. cbn [stepf]. unfold watcher_step. rewrite Hhr, Hw. eexists; reflexivity.
+        * exists (Watcher 0). split; [reflexivity|]. unfold lstep. rewrite W. cbn [stepf]. unfold watcher_step. rewrite Hhr, Hw. eexists; reflexivity.
+        * exists (Watcher 0). split; [reflexivity|]. unfold lstep. rewrite W. cbn [stepf]. unfold watcher_step. rewrite Hhr, Hw. eexists; reflexivity.
+        * destruct K4 as [_ Kx]. specialize (Kx eq_refl). discriminate Kx.
+    - destruct (none_active s async_active) eqn:Hna.
+      + l_thread r0 0 Hr Hpc. rewrite Hna. eexists; reflexivity.
+      + destruct (none_active_false _ _ Hna) as (t & th & Hth & Ha).
+        eapply active_progress; [exact LR|exact Hth|right; exact Ha].
+    - l_thread r0 0 Hr Hpc. cbn [cstep]. destruct (in_closed (co s)); destruct fx; eexists; reflexivity.
+    - destruct (d_pc (co s)) eqn:Hd; try (l_thread r0 0 Hr Hpc; rewrite Hd; eexists; reflexivity).
+      all: assert (Hic : in_closed (co s) = true) by (apply K8; lia).
+      all: destruct (close_step _ CI Hic) as (c' & Hc' & _); [unfold close_rank, dist_rank; rewrite ?Hd; cbn; lia|].
+      all: l_dist Hc'.
+    - assert (Hcl : closing (co s) = true) by (apply K7; lia).
+      assert (W : forall c, avail s (Cleaner c) = true) by (intro; apply avail_other; intros; discriminate).
+      destruct (ic_pc s) eqn:Hicp.
+      + exists (Cleaner 1). split; [reflexivity|]. unfold lstep. rewrite W. cbn [stepf]. unfold cleaner_step. rewrite Hicp, Hcl. eexists; reflexivity.
+      + exists (Cleaner 1). split; [reflexivity|]. unfold lstep. rewrite W. cbn [stepf]. unfold cleaner_step. rewrite Hicp. eexists; reflexivity.
+      + l_thread r0 0 Hr Hpc. rewrite Hicp. eexists; reflexivity.
+    - l_thread r0 0 Hr Hpc. eexists; reflexivity.
+    - l_thread r0 0 Hr Hpc. eexists; reflexivity.
+  Qed.
+
+  (* ... and Close terminates, given a live per-publisher layer *)
+  Theorem close_terminates_layer s :
+    lreach s -> once s <> ONot ->
+    exists ls s', Forall (fun l => int_label l = true) ls /\ run lstep s ls = Some s' /\ once s' = ODone.
+  Proof.
+    intros LR Hn.
+    assert (G : forall n m s, lreach s -> total s <= n -> close_rank (co s) <= m -> once s <> ONot ->
+                exists ls s', Forall (fun l => int_label l = true) ls /\ run lstep s ls = Some s' /\ once s' = ODone).
+    { clear s LR Hn. induction n as [n IHn] using lt_wf_ind. induction m as [m IHm] using lt_wf_ind.
+      intros s LR Ht Hc Hn.
+      destruct (once s) as [|r0|] eqn:Ho; [congruence| |exists [], s; repeat split; auto].
+      destruct (close_never_stuck_layer _ _ LR Ho) as (l & Hl & s1 & Hs1).
+      assert (LR1 : lreach s1) by (eapply reachable_step; eassumption).
+      assert (Hs1' : stepf fx s l = Some s1) by (unfold lstep in Hs1; destruct (avail s l); [exact Hs1|discriminate]).
+      assert (Hn1 : once s1 <> ONot) by (eapply once_not_reset; [exact Hs1'|congruence]).
+      destruct (internal_step_decreases _ _ _ _ _ _ (lreach_reach _ LR) Hl Hs1') as [Hd|[He Hd]].
+      - destruct (IHn (total s1) ltac:(lia) (close_rank (co s1)) s1 LR1 (le_n _) (le_n _) Hn1) as (ls & s' & F & Hr & Hdone).
+        exists (l :: ls), s'. split; [constructor; assumption|]. split; [cbn; rewrite Hs1; exact Hr|exact Hdone].
+      - destruct (IHm (close_rank (co s1)) ltac:(lia) s1 LR1 ltac:(lia) (le_n _) Hn1) as (ls & s' & F & Hr & Hdone).
+        exists (l :: ls), s'. split; [constructor; assumption|]. split; [cbn; rewrite Hs1; exact Hr|exact Hdone]. }
+    apply (G (total s) (close_rank (co s)) s LR (le_n _) (le_n _) Hn).
+  Qed.
+End PerPublisherLayer.
+
+(* the hypotheses are satisfiable: a layer that never holds anybody back *)
+Example layer_hypotheses_trivial_instance :
+  (forall s l, (fun (_ : st) (_ : label) => true) s l = false ->
+     exists t c th, l = Step t c /\ threads s t = Some th /\ lock_point th = true).
+Proof. intros s l H. discriminate H. Qed.
